@@ -75,7 +75,15 @@ func (g *Global) beginRun(c *Ctx) {
 	}
 }
 
+var dumpLog *os.File
+
 func (g *Global) endRun(c *Ctx) {
+	if p := os.Getenv("VERIF_DUMPLOG"); p != "" { // debugging aid for the determinism self-test
+		if dumpLog == nil {
+			dumpLog, _ = os.Create(p)
+		}
+		fmt.Fprintf(dumpLog, "== run %d\n%s\n", g.curRun, strings.Join(c.events, "\n"))
+	}
 	h, s := c.sigHash()
 	lh := c.logHash()
 	g.mu.Lock()
